@@ -54,6 +54,10 @@ type pair struct {
 	extras []extraFile
 	flags  []string // extra child flags for every session of this pair (e.g. maxlen=100)
 	allW   bool     // sweep every write of the save also in the quick tier (states holding more than plain globals)
+	oldRaw string   // when set: the previous state file is these bytes (it need not load cleanly), no old session is run
+	// filled by prepare for oldRaw pairs: what a fresh session loads from the untouched previous file
+	oldLoadDump []byte
+	oldLoadErr  string
 	// set for a session of a multi-save history: signature context ("after-<previous session's point>") and replay string
 	histCtx    string
 	replayCase string
@@ -308,7 +312,19 @@ func (h *harness) prepare(p *pair) {
 	defer func() { h.flags = nil }()
 	dir := h.mkdir()
 	defer os.RemoveAll(dir)
-	if p.hasOld {
+	if p.hasOld && p.oldRaw != "" {
+		// a previous file some of whose lines do not load: what the untouched file loads to is the reference
+		p.oldBytes = []byte(p.oldRaw)
+		if err := os.WriteFile(filepath.Join(dir, stateFile), p.oldBytes, 0o600); err != nil {
+			panic(err)
+		}
+		lr := h.run(nil, nil, -1, "load", dir)
+		p.oldLoadDump, p.oldLoadErr = joinChunks(parseChunks(lr.lines["DUMP"])), lr.lines["LOADERR"]
+		if _, ok := lr.lines["DUMP"]; !ok {
+			c.Fail("reference-session-failed", p.name+" old-load", lr.out)
+			return
+		}
+	} else if p.hasOld {
 		r := h.run(nil, nil, -1, "session", dir, Hx([]byte(p.oldSrc)), "record")
 		if r.lines["ERR"] != "0" {
 			c.Fail("reference-session-failed", p.name+" old", r.out)
@@ -332,7 +348,11 @@ func (h *harness) prepare(p *pair) {
 		}
 	}
 	r := h.run(nil, nil, -1, "session", dir, Hx([]byte(p.newSrc)), "record")
-	if r.lines["ERR"] != "0" || r.lines["LOADERR"] != "0" {
+	wantLoadErr := "0"
+	if p.oldRaw != "" {
+		wantLoadErr = p.oldLoadErr
+	}
+	if r.lines["ERR"] != "0" || r.lines["LOADERR"] != wantLoadErr {
 		c.Fail("reference-session-failed", p.name+" new", r.out)
 		return
 	}
@@ -471,11 +491,14 @@ func (h *harness) check(p *pair, desc, dir string, r childResult, modelScen, kin
 	if cls == "old" {
 		want = p.oldChunks
 	}
-	want = globalsOnly(want)
+	wantDump, wantErr := joinChunks(globalsOnly(want)), "0"
+	if p.oldRaw != "" && o.hasGr && bytes.Equal(o.gr, p.oldBytes) { // the untouched previous file loads exactly as it did before (errors included)
+		wantDump, wantErr = p.oldLoadDump, p.oldLoadErr
+	}
 	if cls == "old" || cls == "new" || cls == "both" {
 		lr := h.run(nil, nil, -1, "load", dir)
-		if lr.lines["LOADERR"] != "0" || !bytes.Equal(joinChunks(parseChunks(lr.lines["DUMP"])), joinChunks(want)) {
-			c.Fail("autoload-differs@"+point, replay, fmt.Sprintf("loaded %q want %q (LOADERR=%s)", joinChunks(parseChunks(lr.lines["DUMP"])), joinChunks(want), lr.lines["LOADERR"]))
+		if lr.lines["LOADERR"] != wantErr || !bytes.Equal(joinChunks(parseChunks(lr.lines["DUMP"])), wantDump) {
+			c.Fail("autoload-differs@"+point, replay, fmt.Sprintf("loaded %q want %q (LOADERR=%s want %s)", joinChunks(parseChunks(lr.lines["DUMP"])), wantDump, lr.lines["LOADERR"], wantErr))
 		}
 	}
 	// correspondence case
@@ -806,6 +829,13 @@ func (h *harness) histories(thorough bool) {
 	}
 }
 
+// every system call that renames, links or unlinks a name; each OCCURRENCE in the reference run (when=1..total) gets
+// its own kill and its own injected failure
+const (
+	renameCalls = "renameat,renameat2"
+	unlinkCalls = "unlinkat,unlink,rmdir,linkat,link,symlinkat,symlink,rename"
+)
+
 // ---- syscall positions of the save path, from a reference run under strace
 type tracePos struct {
 	before map[string]int // per syscall class: calls of the main thread before the SAVING marker
@@ -818,7 +848,7 @@ func (h *harness) traceRef(p *pair) (tracePos, bool) {
 	defer os.RemoveAll(dir)
 	tf := filepath.Join(h.scratch, "trace.txt")
 	defer os.Remove(tf)
-	r := h.run([]string{h.strace, "-f", "-o", tf, "-e", "trace=write,openat,renameat,renameat2"}, nil, -1, "session", dir, Hx([]byte(p.newSrc)))
+	r := h.run([]string{h.strace, "-f", "-o", tf, "-e", "trace=write,openat,"+renameCalls+","+unlinkCalls}, nil, -1, "session", dir, Hx([]byte(p.newSrc)))
 	if _, ok := r.lines["DONE"]; !ok {
 		return tp, false
 	}
@@ -847,8 +877,10 @@ func (h *harness) traceRef(p *pair) (tracePos, bool) {
 			cls = "write"
 		case strings.HasPrefix(rest, "openat("):
 			cls = "openat"
-		case strings.HasPrefix(rest, "renameat"):
-			cls = "renameat,renameat2"
+		case strings.HasPrefix(rest, "rename"):
+			cls = renameCalls
+		case strings.HasPrefix(rest, "unlink"), strings.HasPrefix(rest, "rmdir("), strings.HasPrefix(rest, "link"), strings.HasPrefix(rest, "symlink"):
+			cls = unlinkCalls
 		default:
 			continue
 		}
@@ -900,6 +932,12 @@ func basePairs() []*pair {
 			newSrc: "a=5\nm1=macro(x){quote(unquote(x)+1)}\nm2=macro(x,y){quote(unquote(x)*unquote(y))}\nb=m1(a)\nfunc viaMacro(v){m2(v,3)}\nc=viaMacro(2)"},
 		{name: "macros-many", hasOld: true, allW: true, oldSrc: "a=1\n" + manyMacros(12),
 			newSrc: "a=5\n" + manyMacros(12) + "g=func(y){m03(y)+m11(y)}\nfunc h(x){x}\nl=(p,q)=>p+q\nnested={\"k\":[1,{2:3}],\"f\":1.5}"},
+		// previous files with lines that do NOT load (a corrupted line in the middle, a value that does not read back:
+		// an extension value, a quoted tree printed over two lines, an unknown identifier): code that depends on load
+		// errors runs in the session whose save is interrupted
+		{name: "dirty-old", hasOld: true, allW: true,
+			oldRaw: "a=1\nb=2\nr=rand([integer])\nq=quote(if x {\n1})\nbroken=)(\nz=9\n", newSrc: "c=3\ndel(b)"},
+		{name: "dirty-old-only-garbage", hasOld: true, oldRaw: "\x00\xff not grol at all\n===\n", newSrc: "k=1"},
 		{name: "leftovers", hasOld: true, oldSrc: "a=1\nb=\"hello\"", newSrc: "a=3\nz=[4,5]",
 			extras: []extraFile{{".grol111.tmp", "a=0\nb=\"hel"}, {"notes.txt", "keep me\n"}, {".grol", "x"}}},
 	}
@@ -1031,7 +1069,10 @@ func (h *harness) straceSweep(p *pair, whole bool) {
 		h.c.Fail("strace-reference-run-failed", p.name+" strace-ref", "no SAVING marker / child did not finish under strace")
 		return
 	}
-	for _, sys := range []string{"write", "openat", "renameat,renameat2"} {
+	for _, sys := range []string{"write", "openat", renameCalls, unlinkCalls} {
+		if tp.total[sys] == 0 && sys != renameCalls { // no such call in the reference run of this tree
+			continue
+		}
 		from := tp.before[sys] // the call just before the save path, then every call of the save path, then one beyond
 		if whole {
 			from = 1
@@ -1043,7 +1084,7 @@ func (h *harness) straceSweep(p *pair, whole bool) {
 			h.scenario(p, fmt.Sprintf("strace-kill:%s:%d", sys, k))
 		}
 		// failing calls: only inside the save path (a failing call earlier changes what the session loads)
-		errno := map[string]string{"write": "ENOSPC", "openat": "EMFILE", "renameat,renameat2": "EIO"}[sys]
+		errno := map[string]string{"write": "ENOSPC", "openat": "EMFILE", renameCalls: "EIO", unlinkCalls: "EIO"}[sys]
 		for k := tp.before[sys] + 1; k <= tp.total[sys]+1; k++ {
 			if sys == "write" && k > tp.total[sys]-2 { // the last two writes are the child's ERR / DONE lines on stdout
 				break
@@ -1122,11 +1163,12 @@ func runC18(c *Ctx) {
 	if !c.Thorough() {
 		h.straceSweep(byName["small-to-small"], false)
 		h.straceSweep(byName["macros-many"], false)
+		h.straceSweep(byName["dirty-old"], false)
 		for i := 0; i < 8; i++ {
 			h.scenario(byName["many-to-many"], fmt.Sprintf("timed:%d", c.R.Intn(400)))
 		}
 	} else {
-		for _, n := range []string{"small-to-small", "absent-to-1", "1-to-0", "leftovers"} {
+		for _, n := range []string{"small-to-small", "absent-to-1", "1-to-0", "leftovers", "dirty-old"} {
 			h.straceSweep(byName[n], true)
 		}
 		h.straceSweep(byName["many-to-many"], false)
